@@ -54,6 +54,7 @@ def memLayer (copying : Bool) : Layer HSt :=
     env := fun e s => match e with
       | .close => { s with closed := true }
       | .reopen => { s with closed := false }
+      | .other _ => s
     disk := fun s => stored s.m 0 }
 
 theorem acked_encode (m : M) (copying : Bool) (v : Nat) :
